@@ -1,9 +1,20 @@
 """C05 — decoders are total: every decoding entry point on 'almost well-formed' input.
 The verdict does not depend on the model: a real panic / hang / modified input IS the violation.
-The model side (tot.* ops backed by the Coq models, where present) is compared as a fidelity case."""
+Three parts:
+ * the malformed stream through goexec AND modelexec: every case `tot.<entry> <bytes> [n]` runs one entry group of the
+   real library (goexec/total.go) and the same group over the models (Exec/TotExec.v); the outcome classes are
+   compared.  Properties/C05Tot.v proves that the model side never answers Panic / Diverge, so "real returns, model
+   returns" is what ties the totality theorems to the code; a class difference with a well-behaved real side is a
+   correspondence break (oracle message "fidelity: ...", reported through the no-failing-input-found path).
+ * byte-level mutations of 15 valid vectors plus structure-aware mutations (every length field of well-formed PAT / PMT /
+   splice_info_section / EBP / PES header / adaptation field, sections split over packets), see structured_cases.
+ * the command-line tool cli/parsefile.go on mutated transport-stream files (bin/gen/c05cli.py; no executor involved)."""
 import os
 HERE = os.path.dirname(os.path.abspath(__file__))
 from vlib import Case, hx, parse_val
+from gen import c05cli
+from gen import tslib as T
+import vlib
 
 PROP = "C05"
 import glob as _g
@@ -20,16 +31,24 @@ NARG = {"pkt.read": [0, 15, 255], "pkt.setpayload": [0, 1, 3, 100, 183, 184, 200
         "pkt.sync": [0, 100], "pkt.writer": [0, 1, 2]}
 
 RULE = ("every entry point (%d ops of goexec/total.go, each calling the decoder and then every getter / printer / "
-        "re-encoder of a successful result) on mutations of %d valid vectors: truncation at every offset, every "
-        "byte of the first 48 set to 00/01/7f/80/ff, single-bit flips, length-like bytes +-1 and doubled, random "
-        "tails, plus empty / random strings; non-trivial = distinct (entry, input) pairs that are not the unmutated seed"
+        "re-encoder of a successful result; the same op over the models in Exec/TotExec.v) on mutations of %d valid vectors: "
+        "truncation at every offset, every byte of the first 48 set to 00/01/7f/80/ff, single-bit flips, length-like bytes +-1 "
+        "and doubled, random tails, plus empty / random strings; plus structure-aware mutations: every length field of "
+        "well-formed PAT / PMT / splice_info_section / EBP / PES header / adaptation field (built by the Coq Spec serialisers) "
+        "set to 0, max, +-1, x2 and to the values that end its content at / one before / one past every enclosing end, the "
+        "swallowed bytes refilled with descriptor-like shapes, and PMT sections split at every payload offset over two packets; "
+        "non-trivial = distinct (entry, input) pairs that are not an unmutated seed.  Separately: the cli binary on ~320 "
+        "mutated transport-stream files (coverage.extra)"
         % (len(ENTRIES), 15))
 EXHAUSTIVE = False
 MAX_REPORTS = 40
-MODEL_OPTIONAL = True   # the model side of the tot.* ops is optional (see oracle)
 ASSUMPTIONS = ["a call is a hang when it runs > 3 s or the heap exceeds 768 MiB (goexec watchdog), confirmed by one re-run in a fresh process",
                "memory/time bounds are observed, not proved (DESIGN section 10); read-only = input snapshot compared after the call",
-               "cli/parsefile.go (a main package) is not driven"]
+               "model side of the tot.* ops: calls without a model (String(), Format(), fmt printing, the SCTE-35 state tracker at the end of scte.new, "
+               "psi.CanBuildPMT) are run on the real side only; Exec/TotExec.v names them per group",
+               "cli/parsefile.go: the binary is built from a copy of the tree and run with a 5 s timeout and a 4 GiB address-space limit; a panic is "
+               "recognised from stderr ('panic:' / 'goroutine '); its explicit panic(err) on a ReadPMT error is a pending finding (notes/findings/C05-cli.md) "
+               "printed as KNOWN-FINDING"]
 PARTIAL = ("proof covers panic-freedom / termination of the modelled entry points (Properties/C05.v lists them); "
            "memory and time bounds and aliasing are runtime observations made by goexec only")
 
@@ -94,6 +113,7 @@ def gen(rng, tier):
                     b = bytearray(s); b[3] |= 0x20; b[4] = afl; b[5] = fl
                     inputs.append(("af-hostile", bytes(b)))
     seen = set()
+    structured_cases(rng, tier, out, seen)
     for ent in ENTRIES:
         args = NARG.get(ent, [None])
         for kind, b in inputs:
@@ -113,18 +133,138 @@ def gen(rng, tier):
     return out
 
 
+# ---- structure-aware malformed stream: well-formed structures from the other generators' serialisers (Coq Spec
+# serialisers through modelexec: ser.section / ser.scte / ser.ebp.*; bin/gen/tslib.py for the packet layer), every
+# length field set to 0, max, +-1, x2 and to the values that make its content end exactly AT, one BEFORE and one PAST
+# each enclosing end, the swallowed bytes refilled with descriptor-like shapes; sections split at every payload
+# offset over two packets for the stream readers ----
+PMT_PID = 0x64
+
+
+def carry(pid, chunk, pusi, cc=0):
+    """one packet whose payload is exactly `chunk` (<= 184 bytes): the adaptation field takes the rest"""
+    n = len(chunk)
+    hdr = bytes([0x47, (0x40 if pusi else 0) | (pid >> 8), pid & 255])
+    if n >= 184:
+        return hdr + bytes([0x10 | cc]) + chunk[:184]
+    if n == 183:
+        return hdr + bytes([0x30 | cc, 0]) + chunk
+    afl = 183 - n
+    return hdr + bytes([0x30 | cc, afl, 0]) + b"\xff" * (afl - 1) + chunk
+
+
+def wellformed(rng, tier):
+    """dict of lists of well-formed byte strings: pmt / pat payloads (pointer field 0), scte sections (with pointer
+    field), ebp, pes, af packets"""
+    from gen import pmtlib, sctelib, c12
+    quick = tier == "quick"
+    secs = []
+    for k in ([1, 2, 3, 5] if quick else [0, 1, 1, 2, 2, 3, 4, 5, 8, 12]):
+        c = pmtlib.rand_carrier(rng, crc="", allow_pre=False, small=(k < 3), nstreams=k)
+        secs.append(c["sec"])
+    rep = vlib.run_model(["ser.section " + pmtlib.fmt_val(pmtlib.fmt_section(x)) for x in secs])
+    pmts = [b"\x00" + vlib.unhx(r) + b"\xff" * 3 for r in rep]
+    pmts.append(b"\x00" + T.pmt_section([(0x1B, 0x100, [])], prog=155) + b"\xff" * 3)       # smallest: one stream, no descriptors
+    pmts.append(b"\x00" + T.pmt_section([(0x1B, 0x65, [(0x05, b"CUEI"), (0xE9, bytes([0x0F, 1, 0, 1]))]),
+                                          (0x0F, 0x66, [(0x0A, b"eng\x00"), (0x0E, b"\xc0\x04\xb0")]),
+                                          (0x86, 0x67, [(0x05, b"CUEI")])], pinfo=[(0x05, b"CUEI")]) + b"\xff" * 2)
+    pats = [b"\x00" + T.pat_section([(i + 1, PMT_PID + i) for i in range(n)]) + b"\xff" * 2 for n in (1, 3, 40)]
+    sigs = [sctelib.g_signal(rng, pf=0) for _ in range(4 if quick else 20)]
+    sigs = [s for s in sigs if sctelib.fits(s)]
+    sctes = [b for b in sctelib.serialise(sigs)] + [x for x in seeds()[4:7]]
+    lines = [c12.comcast_line(1, 1, 0, 0, 0x80, 3, 0x1D, (7, 9), b"\x01\x02"), c12.comcast_line(0, 1, 1, 0, None, None, None, None, b""),
+             c12.cablelabs_line(1, 0, 1, 0, 0x45425030, (0x80, 0x55), 2, [1, 2, 0x1D], (1, 2), b"\x09"),
+             c12.cablelabs_line(0, 0, 0, 0, 0x45425030, None, None, [5], None, b"")]
+    ebps = [b for wf, b in c12.serialise(lines) if b] + [x for x in seeds()[7:9]]
+    pes = list(seeds()[9:11])
+    afs = [seeds()[11], seeds()[12]] + [T.af_packet(0x65, bytes([0x02, len(e)]) + e, cc=1) for e in ebps[:3]]
+    return {"pmt": pmts, "pat": pats, "scte": sctes, "ebp": ebps, "pes": pes, "af": afs}
+
+
+def structured_cases(rng, tier, out, seen):
+    quick = tier == "quick"
+    nfill = 3 if quick else 6
+    w = wellformed(rng, tier)
+
+    def add(ent, b, n, kind):
+        line = "tot.%s %s" % (ent, hx(b)) + ("" if n is None else " %d" % n)
+        if line not in seen:
+            seen.add(line)
+            out.append(Case(line, kind=ent + ":struct:" + kind, decides=True, nontrivial=True, theorem="C05 totality of " + ent))
+
+    def psi_payload(pay, kind, pid_arg):
+        """a PSI payload (pointer field first) to every entry that can meet it: as bytes and as packets"""
+        add("psi.pmt", pay, pid_arg, kind); add("psi.done", pay, None, kind); add("psi.crc", pay, None, kind)
+        add("psi.accessors", pay, 13, kind)
+        pk = b"".join(T.packets(PMT_PID, pay))
+        add("psi.filter", pk, pid_arg, kind); add("psi.readpmt", pk, PMT_PID, kind); add("pkt.acc", pk, None, kind)
+
+    for pay in w["pmt"]:
+        fields = T.walk_pmt(pay, 1)
+        psi_payload(pay, "seed", 101)
+        for kind, m in T.length_mutations(pay, fields, rng, nfill=nfill):
+            psi_payload(m, kind, 101)
+        # the section split at every payload offset over two packets (stream readers, accumulator, filter)
+        step = 1 if (not quick or len(pay) < 80) else 3
+        for k in range(1, min(len(pay), 184), step):
+            pk = carry(PMT_PID, pay[:k], True, 0) + carry(PMT_PID, pay[k:k + 184].ljust(min(184, max(1, len(pay) - k)), b"\xff"), False, 1)
+            rest = pay[k + 184:]
+            if rest:
+                pk += b"".join(T.packets(PMT_PID, rest, cc=2, pusi=False))
+            for ent, n in (("psi.readpmt", PMT_PID), ("pkt.acc", None), ("psi.filter", 101)):
+                add(ent, pk, n, "split")
+    for pay in w["pat"]:
+        for kind, m in [("seed", pay)] + list(T.length_mutations(pay, T.walk_pat(pay, 1), rng, nfill=1)):
+            add("psi.pat", m, None, kind); add("psi.accessors", m, 0, kind)
+            pk = T.packets(0, m)[0]
+            add("psi.pat", pk, None, kind); add("psi.readpat", pk + T.packets(PMT_PID, w["pmt"][0])[0], None, kind)
+    for sec in w["scte"]:
+        base = 1 + sec[0]
+        for kind, m in [("seed", sec)] + list(T.length_mutations(sec, T.walk_scte(sec, base), rng, nfill=nfill)):
+            add("scte.new", m, None, kind)
+    for e in w["ebp"]:
+        for kind, m in [("seed", e)] + list(T.length_mutations(e, T.walk_ebp(e), rng, nfill=1)):
+            add("ebp.read", m, None, kind)
+            for cut in (len(m) - 1, len(m) - 4, 7, 3):
+                if 0 < cut < len(m):
+                    add("ebp.read", m[:cut], None, kind + "+cut")
+    for p in w["pes"]:
+        for kind, m in [("seed", p)] + list(T.length_mutations(p, T.walk_pes(p), rng, nfill=1)):
+            add("pes.new", m, None, kind)
+            add("pkt.read", carry(0x65, m[:184], True), 0, kind)
+    for pkt in w["af"]:
+        fs = T.walk_af(pkt)
+        tp = [f for f in fs if f.name == "af.transport_private_data_length"]
+        if tp and pkt[tp[0].off] >= 2:   # an EBP in the private data: its own length byte is a field of the packet too
+            e0 = tp[0].start
+            fs = fs + [T.Field("ebp.data_field_length", e0 + 1, 8, e0 + 2, [e0 + pkt[tp[0].off], 188])]
+        for kind, m in [("seed", pkt)] + list(T.length_mutations(pkt, fs, rng, nfill=1)):
+            add("af.getters", m, 1, kind); add("affn", m, None, kind); add("pkt.read", m, 0, kind)
+            add("pkt.setpayload", m, 100, kind); add("pkt.setafc", m, 3, kind)
+            for op in (range(20, 40) if kind.split(":")[0].startswith("af.") or kind == "seed" else (25, 27, 28)):
+                add("af.setters", m, op, kind)
+
+
 def oracle(c, real, model):
+    """verdict from the REAL observation alone; when the real code is fine the model's outcome class is compared
+    (the model side of the same op, Exec/TotExec.v): a difference breaks the tie between the totality theorems
+    (Properties/C05*.v) and the code and is reported as a correspondence break ("fidelity:" prefix, see bin/check)."""
     if real.startswith("[0 1]"):
+        if model != "[0 1]":
+            return "fidelity: the real code returns, the model of %s answers %s" % (c.line.split(" ")[0], MODEL_CLASS.get(model, model))
         return ""
     if real.startswith("[0 0]"):
         return "a read-only operation modified a caller-supplied buffer"
     if real.startswith("[2"):
-        return "panic at " + site(real)
+        return "panic at " + site(real) + ("" if model == "[0 1]" else " (model: %s)" % MODEL_CLASS.get(model, model))
     if real == "[3]":
         return "hang or heap blow-up (watchdog)"
     if real == "[4]":
         return "process died"
     return "unexpected reply " + real
+
+
+MODEL_CLASS = {"[0 1]": "returns", "[2 x]": "Panic", "[3]": "Diverge"}
 
 
 def site(real):
@@ -165,11 +305,24 @@ def shrink(c):
 
 
 LEVEL_TEXT = ("Proof (partial, see level_note): the decoder models live in a Res monad with bounds-checked reads and fuelled loops, "
-              "and Properties/C05.v states for the modelled entry points that no byte string makes them Panic or Diverge. "
+              "and Properties/C05*.v state for the modelled entry points that no byte string makes them Panic or Diverge; "
+              "Properties/C05Tot.v states the same of the 21 executor ops that run those models call by call like goexec/total.go. "
               "Tie and verdict: every decoding entry point of the real library (21 entry groups incl. getters, printers and "
-              "re-encoders of successful results) is run on truncations, length-field perturbations, byte/bit corruptions of "
-              "valid vectors and on random input; any panic, hang, heap blow-up or modified input buffer is reported with the input.")
+              "re-encoders of successful results) is run on truncations, length-field perturbations (byte-level and structure-aware), "
+              "byte/bit corruptions of valid vectors and on random input, next to the model op of the same name; any panic, hang, heap "
+              "blow-up or modified input buffer is reported with the input, a difference of outcome class as a correspondence break. "
+              "The command-line tool is built and run on mutated transport-stream files.")
 LEVEL_NOTE = ("Partial: time/memory bounds and non-modification of caller buffers are runtime observations (goexec watchdog and "
-              "snapshots), not theorems; entry points whose model is not yet in Properties/C05.v rest on the malformed-input "
-              "stream alone. Trusted: Coq kernel, model transcription, executor glue, Go runtime.")
-TECHNIQUE = "Coq totality theorems over Res-monad models (no Panic/Diverge for all inputs) + malformed-input differential run of every real entry point"
+              "snapshots), not theorems; printers (String/Format), the state tracker at the end of scte.new and the cli binary "
+              "have no model and rest on the malformed-input run alone. Trusted: Coq kernel, model transcription, executor glue, Go runtime.")
+TECHNIQUE = "Coq totality theorems over Res-monad models (no Panic/Diverge for all inputs) + malformed-input differential run of every real entry point against the model op of the same name + cli binary on mutated files"
+
+
+# ---- the command-line tool (cli/parsefile.go): a driver of its own, see bin/gen/c05cli.py; bin/check calls `extra`
+# after the generated cases and `replay_extra` for a replay file that carries "extra" ----
+def extra(tier, seed, rng):
+    return c05cli.extra(tier, seed, rng)
+
+
+def replay_extra(d):
+    return c05cli.replay(d)
